@@ -508,9 +508,12 @@ resolved and an empty log; `progress_step` is the measure step (some enabled nod
 decreases `mu`).  `mu` is bounded by `15 + 10·|spec contracts| + 10·|log|`, a bound that does not
 depend on volatile state, so a stop (which leaves the log alone) restores at most that bound.
 
-NOT covered (stated, not hidden): that EVERY enabled node action decreases `mu` (the steps of the
-key-less anchor resolver do not change `mu`; they are harmless but not counted), and progress of
-the utxo nursery itself (the arbitrator only waits for the sweep fact). -/
+Round 7 (`Termination.lean`, `Nursery.lean`): EVERY enabled node action descends in the
+lexicographic pair `(mu, awork)` (`node_action_descends`; the steps of the key-less anchor resolver
+keep `mu` and reduce `awork`), hence the node-step relation is well-founded
+(`node_runs_terminate`); progress of the utxo nursery's store transitions is `nursery_drains`.
+NOT covered (stated, not hidden): which class heights the running nursery offers to the sweeper
+(the arbitrator only waits for the sweep fact; finding F5 lives there). -/
 
 /-- PROGRESS (liveness on the fragment).  From every state reachable outside the defect windows,
     once the chain facts are complete, at most `mu sp s` node actions lead to: channel marked fully
